@@ -11,7 +11,7 @@ RULE = ("random valid bracketed programs (prepare/measure pairs or subcircuit bl
         "reference applying each executed gate's matrix on its resolved qubits (bit j of the matrix index <-> j-th qubit argument, "
         "bit i of the state index <-> register qubit i); non-trivial = some segment has a multi-qubit or parametrised gate")
 BOUND = "n <= 4 qubits, depth <= 3, <= 3 statements per block, loop counts 0..3"
-BUDGET_S = {"quick": 40, "thorough": 900}
+BUDGET_S = {"quick": 40, "thorough": 400}
 
 
 def cases(tier, rng):
